@@ -49,24 +49,8 @@ def r17_1(ctx):
 
 def r17_2(ctx):
     out = Outcome("R17.2", "vertices = every control point of every segment once, de-duplicated by object identity",
-                  floor=2)
+                  floor=1)
     C09._vertices_rule(ctx, out)
-    # abstract run: two distinct control points at the same position must both be listed; a shared junction once
-    fn = ctx.fn("jordancurve.JordanCurve.vertices")
-    a, b, c = PV(0, 0), PV(4, 0), PV(0, 3)
-    twin = PV(4, 0)             # a distinct control point at the same coordinates as b
-    J = Obj("J", segments=(Obj("s0", ctrlpoints=(a, twin, b)), Obj("s1", ctrlpoints=(b, c)), Obj("s2", ctrlpoints=(c, a))))
-    try:
-        got = Runner(ctx, set(), None).call_fn(fn, [J])
-        ids = [id(x) for x in got]
-        want = [id(x) for x in (a, twin, b, c)]
-        if ids != want:
-            out.bad(fn.qname, "vertex list is not [each control point object once, in order]", where=fn.where(),
-                    detail=f"got {list(got)} for control points a,twin(b),b | b,c | c,a")
-        else:
-            out.ok(fn.qname, "distinct coincident control points both listed; shared junctions once; order kept", where=fn.where())
-    except (Undecided, Raised) as ex:
-        out.undecided(fn.qname, str(ex), where=fn.where())
     return out
 
 
